@@ -50,7 +50,7 @@
 (*  counters at the end: numOut = items acknowledged (OutCounted), parse      *)
 (*           errors = accepted unparsable items where the route counts them   *)
 (*           (ParseCounted), numBuffered = 0 (GaugeZero)                      *)
-(*  liveness (observed with deadlines): TimerFlush, LoopExits,                *)
+(*  liveness (observed with deadlines): TimerFlush, LoopStuck, LoopExits,     *)
 (*           ShutdownReturns                                                  *)
 (* o.viol collects <<clause, where>>; an execution satisfies the statements   *)
 (* iff o.viol stays empty.                                                    *)
@@ -58,14 +58,15 @@ EXTENDS Integers, Sequences, FiniteSets
 
 Clauses == {"Harness", "UnknownItem", "EmptyBatch", "BatchShape", "NoSkip", "NoResend", "RetrySame", "BatchBound",
             "ThresholdExact", "DropsCounted", "DropOnlyWhenFull", "BlockingNeverDrops", "NonBlockingNeverBlocks",
-            "TimerFlush", "LoopExits", "ShutdownReturns", "NothingLeftBehind", "AllTransmitted", "ErrsCounted",
+            "TimerFlush", "LoopStuck", "LoopExits", "ShutdownReturns", "NothingLeftBehind", "AllTransmitted", "ErrsCounted",
             "SpuriousError", "OutCounted", "ParseCounted", "GaugeZero"}
 
 RetryKind(kind) == kind = "kafka"
 CountKind(kind) == kind \in {"kafka", "cloudwatch"}
 
 ObsInit ==
-  [ sz     |-> <<>>,    \* sz[id] = size of item id (pubsub: len(line) + 1; count kinds: 1); Len(sz) = items dispatched
+  [ sz     |-> <<>>,    \* sz[id] = size the threshold test charges for item id (pubsub: len(line) + 1; count kinds: 1)
+    asz    |-> <<>>,    \* asz[id] = bytes the item adds to the pending batch (pubsub plain: = sz; pickle: the pickled point)
     bad    |-> {},      \* unparsable items
     retd   |-> {},      \* Dispatch returned
     accd   |-> {},      \* .. and the drop counter did not move
@@ -78,25 +79,28 @@ ObsInit ==
     efail  |-> 0,       \* sends answered with a failure
     sd     |-> "no",    \* "no" | "called" | "returned" | "timeout"
     exited |-> FALSE,
+    early  |-> FALSE,   \* (not a clause) Shutdown returned while accepted items were not yet done with
     viol   |-> {} ]
 
 Called(o) == 1 .. Len(o.sz)
 SeqRange(s) == {s[i] : i \in DOMAIN s}
 V(vs, cond, clause, where) == IF cond THEN vs \cup {<<clause, where>>} ELSE vs
 
+\* bytes in the pending batch after these items have been appended
 RECURSIVE SumSz(_, _)
-SumSz(o, ids) == IF ids = <<>> THEN 0 ELSE o.sz[Head(ids)] + SumSz(o, Tail(ids))
+SumSz(o, ids) == IF ids = <<>> THEN 0 ELSE o.asz[Head(ids)] + SumSz(o, Tail(ids))
 
-RECURSIVE SumSzSet(_, _)
-SumSzSet(o, S) == IF S = {} THEN 0 ELSE LET x == CHOOSE y \in S : TRUE IN o.sz[x] + SumSzSet(o, S \ {x})
+\* a set of ids in hand-over order
+RECURSIVE Sorted(_)
+Sorted(S) == IF S = {} THEN <<>> ELSE LET m == CHOOSE y \in S : \A z \in S : y <= z IN <<m>> \o Sorted(S \ {m})
 
 \* accepted parsable items: what the route owes the endpoint
 Want(o) == o.accd \ o.bad
 \* every item strictly between a and b was dropped or is unparsable
 Gap(o, a, b) == \A j \in (a + 1) .. (b - 1) : j \in o.dropd \/ j \in o.bad
 
-ODisp(o, id, sz, bad, where) ==
-  [o EXCEPT !.sz = Append(@, sz), !.bad = IF bad THEN @ \cup {id} ELSE @,
+ODisp(o, id, sz, asz, bad, where) ==
+  [o EXCEPT !.sz = Append(@, sz), !.asz = Append(@, asz), !.bad = IF bad THEN @ \cup {id} ELSE @,
             !.viol = V(@, id # Len(o.sz) + 1 \/ o.sd # "no" \/ Called(o) # o.retd, "Harness", where)]
 
 \* Dispatch returned; st = "acc" | "drop"
@@ -112,10 +116,12 @@ ORet(o, id, st, blocking, bufsize, where) ==
                !.viol = v3]
 
 \* a Dispatch call did not return within the bound
-OStall(o, blocking, where) == [o EXCEPT !.viol = V(@, ~blocking, "NonBlockingNeverBlocks", where)]
+OStall(o, blocking, where) == [o EXCEPT !.viol = @ \cup {<<IF blocking THEN "LoopStuck" ELSE "NonBlockingNeverBlocks", where>>}]
 
+\* pubsub: every item but the first passed the test "pending bytes + its size < fmax" when it was appended
 Bound(o, kind, fmax, ids) ==
-  IF CountKind(kind) THEN Len(ids) <= fmax ELSE Len(ids) = 1 \/ SumSz(o, ids) < fmax
+  IF CountKind(kind) THEN Len(ids) <= fmax
+  ELSE \A i \in 2 .. Len(ids) : SumSz(o, SubSeq(ids, 1, i - 1)) + o.sz[ids[i]] < fmax
 
 \* the batch was cut by the threshold and by nothing else
 Full(o, kind, fmax, ids) ==
@@ -157,13 +163,16 @@ OSettle(o, kind, ok, where) ==
 
 \* the run loop is parked in its select with an empty buffer, there is no timer, Shutdown has not been called:
 \* what is pending is less than a full batch
-OIdle(o, kind, fmax, where) ==
+\* (ok = FALSE: the loop did not get there within the bound although the endpoint answers)
+OIdle(o, kind, fmax, ok, where) ==
   LET pend == Want(o) \ Done(o, kind)
-  IN [o EXCEPT !.viol = V(@, IF CountKind(kind) THEN Cardinality(pend) >= fmax
-                              ELSE Cardinality(pend) > 1 /\ SumSzSet(o, pend) >= fmax, "ThresholdExact", where)]
+      v1 == V(o.viol, ~ok, "LoopStuck", where)
+  IN [o EXCEPT !.viol = V(v1, ok /\ IF CountKind(kind) THEN Cardinality(pend) >= fmax
+                                    ELSE ~Bound(o, kind, fmax, Sorted(pend)), "ThresholdExact", where)]
 
 OSdCall(o, where) == [o EXCEPT !.sd = "called", !.viol = V(@, o.sd # "no" \/ Called(o) # o.retd, "Harness", where)]
-OSdRet(o, where) == [o EXCEPT !.sd = "returned", !.viol = V(@, o.sd # "called", "Harness", where)]
+OSdRet(o, kind, where) == [o EXCEPT !.sd = "returned", !.early = ~(Want(o) \subseteq Done(o, kind)),
+                                    !.viol = V(@, o.sd # "called", "Harness", where)]
 OSdTimeout(o, where) == [o EXCEPT !.sd = "timeout", !.viol = @ \cup {<<"ShutdownReturns", where>>}]
 \* the run loop has returned (ok) / has not returned within the bound after Shutdown
 OExit(o, ok, where) == [o EXCEPT !.exited = ok, !.viol = V(@, ~ok, "LoopExits", where)]
